@@ -164,3 +164,29 @@ def sig_suffix(f):
 # value itself is irrelevant; its arithmetic is the subject of C17
 CRC_EXT = {'igris_strmcrc8': ext_strmcrc8, '_ZL14igris_strmcrc8Phc': ext_strmcrc8}
 CRC_OPAQUE = set(CRC_EXT)
+
+
+def cstr_params(*names, extra=0, maxlen=1 << 30):
+    """FnSpec.setup: the named pointer parameters point to NUL-terminated strings of symbolic length
+    len_<name> (object size len+1+extra); binds len_<name> in the contract environment"""
+    from absval import PtrVal
+    from lin import Lin
+
+    def setup(run, st, env, pnames, args, sps):
+        for nm in names:
+            i = nm if isinstance(nm, int) else pnames.index(nm)
+            nm = 'arg%d' % i if isinstance(nm, int) else nm
+            n = st.fresh_int(64, False, 'len_' + nm)
+            st.cons.add_le(n.u, maxlen)
+            o = st.new_obj('param', n.u + 1 + extra, nm, {'desc': 'C string ' + nm, 'cstr_len': n.u})
+            args[i] = PtrVal(o.id, Lin(0))
+            env.bind('len_' + nm, n.u)
+    return setup
+
+
+LIBC_FLAGS = ['-fno-builtin', '-D_GNU_SOURCE', '-D__weak_alias(a,b)=']
+
+
+def libc_unit(repo, rel, **kw):
+    """compat/libc sources are hosted against the system headers (the bundled headers are incomplete)"""
+    return compile_ir(os.path.join(repo, rel), repo, LIBC_FLAGS, lang='c', **kw)
